@@ -71,7 +71,47 @@ class Check:
         self.floors[rid] = floor
         self.counts.setdefault(rid, 0)
 
+    # single-row twins: each obligation is evaluated again with the listed row axes declared to have exactly one row
+    # (alg.unit_axes); the twin is recorded only when the evaluation met one of those axes (otherwise it is the same obligation)
+    SINGLE_ROW_MODES = {
+        "C03": (("B",), ("Bb",), ("I",), ("S",), ("B", "Bb", "I", "S")),
+        "C04": (("B",), ("Bb",), ("B", "Bb", "I", "S")),
+        "C05": (("B",), ("I",), ("S",), ("B", "Bb", "I", "S")),
+        "C12": (("B",), ("I",), ("B", "Bb", "I", "S")),
+        "C06": (("B", "Bb", "I", "S"),), "C13": (("B", "Bb", "I", "S"),),
+    }
+
     def run(self, rule, site, config, fn, construct=None, nontrivial=True):
+        o = self._run_one(rule, site, config, fn, construct, nontrivial)
+        modes = self.SINGLE_ROW_MODES.get(self.pid, ())
+        if self.pid in ("C06", "C13") and self.tier != "thorough":
+            modes = ()
+        from . import alg
+        if alg.UNIT_AXES:          # the obligation sets its own single-row configuration
+            modes = ()
+        for names in modes:
+            alg.UNIT_AXES.hits = 0
+            hit = [0]
+
+            def twin(names=names):
+                with alg.unit_axes(*names):
+                    try:
+                        return fn()
+                    finally:
+                        hit[0] = alg.UNIT_AXES.hits
+            cfg = dict(config) if isinstance(config, dict) else {"config": config}
+            if "single_row_axes" in cfg or "batch_rows" in cfg:
+                break
+            cfg["single_row_axes"] = list(names)
+            n0 = len(self.obls)
+            self._run_one(rule, site, cfg, twin, construct, nontrivial)
+            if not hit[0]:
+                # no listed axis occurred: not a different obligation
+                del self.obls[n0:]
+                self.counts[rule] -= 1
+        return o
+
+    def _run_one(self, rule, site, config, fn, construct=None, nontrivial=True):
         """evaluate one obligation; fn() returns a short description of what was established"""
         o = Obligation()
         o.rule, o.site, o.config, o.construct = rule, site, config, construct
